@@ -63,6 +63,9 @@ pub fn computed() -> Vec<Value> {
         json!({"==": [1, 2]}), json!({"!": [1]}), json!({"in": [1, [2]]}), json!({"all": [[], 1]}), json!({"some": [[1], 0]}), json!({"none": [[1], 1]}),
         json!({"if": [0, 1]}), json!({"if": []}), json!({"and": [1, 0]}), json!({"or": [0, ""]}), json!({"reduce": [[], 1, 0]}), json!({"reduce": [[1], {"var": "nope"}, 5]}),
         json!({"max": [0, -1]}), json!({"log": 0}), json!({"log": "0"}),
+        // comparisons of incomparable operands (false both ways round: the negation is true, not the opposite comparison)
+        json!({"<": ["abc", 1]}), json!({">=": ["abc", 1]}), json!({">": [{"var": "pad"}, "x"]}), json!({"<=": [[1, 2], 1]}), json!({"<": [{}, 1]}), json!({">=": [{"var": "nope"}, "a"]}),
+        json!({"<": [1, "abc", 3]}), json!({"!=": [1, 1]}), json!({"!==": ["a", "a"]}), json!({"===": [[], []]}),
     ]
 }
 
